@@ -384,6 +384,14 @@ _REDUCTION_FAMILY = {"numpy.sum": "sum", ".sum": "sum", "numpy.mean": "mean", ".
                      "numpy.ceil": "ceil", "numpy.rint": "rint", "numpy.argmax": "argmax", "numpy.argmin": "argmin", ".argmax": "argmax", ".argmin": "argmin"}
 
 
+def _walk_terms(t):
+    if isinstance(t, tuple):
+        if t and isinstance(t[0], str):
+            yield t
+        for x in (t[1:] if (t and isinstance(t[0], str)) else t):
+            yield from _walk_terms(x)
+
+
 def term_definite_difference(a, b, depth=0):
     """Two value-graph terms of identical shape that differ only in index expressions (not identically equal), numeric
     constants, comparison operators or attribute names.  Returns a reason or None."""
@@ -403,6 +411,16 @@ def term_definite_difference(a, b, depth=0):
     if ka in idx_like and kb in idx_like and (ka != kb or ka in ("bin", "loopvar", "elem", "sym")) and \
             not (ka == "const" and not isinstance(a[1], (int, float))) and not (kb == "const" and not isinstance(b[1], (int, float))):
         # index arithmetic over loop variables / constants
+        # the element of an enumerate() loop may be the same object as a loop-dependent subscript of the iterated container
+        # (X[n] inside `for n, x in enumerate(X)`): such a pair is never a definite difference
+        def _enum_elem(t_):
+            return any(isinstance(x_, tuple) and len(x_) == 3 and x_[0] == "elem" and x_[2] == 1 for x_ in _walk_terms(t_))
+
+        def _moving_sub(t_):
+            return any(isinstance(x_, tuple) and x_ and x_[0] == "sub" and any(isinstance(y_, tuple) and y_ and y_[0] in ("loopvar", "elem", "mu") for y_ in _walk_terms(x_[2]))
+                       for x_ in _walk_terms(t_))
+        if (_enum_elem(a) and _moving_sub(b)) or (_enum_elem(b) and _moving_sub(a)):
+            return None
         try:
             lv = {}
 
